@@ -1,0 +1,27 @@
+//go:build verif
+
+package core
+
+import "sync"
+
+var (
+	verifObserverMu sync.RWMutex
+	verifObserver   func(path string)
+)
+
+// VerifSetFileAccessObserver installs a callback which receives every path
+// the INCLUDE machinery is about to hand to the file system.
+func VerifSetFileAccessObserver(f func(path string)) {
+	verifObserverMu.Lock()
+	verifObserver = f
+	verifObserverMu.Unlock()
+}
+
+func verifObserveFileAccess(path string) {
+	verifObserverMu.RLock()
+	f := verifObserver
+	verifObserverMu.RUnlock()
+	if f != nil {
+		f(path)
+	}
+}
